@@ -193,12 +193,14 @@ REGISTRY = {
     'C01': {
         'theorems': ['PP.C01.output_reads_back', 'PP.C01.canon_reads_back', 'PP.Tok.canon_reads', 'PP.C03.output_tokens', 'PP.Limits.limits_tokens',
                      'PP.C04.sound_pformat', 'PP.C02.lines_join', 'PP.C02.lines_nonempty', 'PP.C02.unescape_escape', 'PP.C01.sorted_perm',
-                     'PP.C01.insertion_order', 'PP.C01.output_reads_back_sorted', 'PP.Tok.inC01_shown'],
+                     'PP.C01.insertion_order', 'PP.C01.output_reads_back_sorted', 'PP.Tok.inC01_shown', 'PP.C01.canon_reads_back\'', 'PP.C01.output_reads_back\'',
+                     'PP.Tok.inC01_inRd'],
         'modules': VALUE_MODULES + ['PP.Props.Values', 'PP.Spec.Tokens', 'PP.Spec.Reader', 'PP.Proofs.Toks', 'PP.Proofs.ToksStr', 'PP.Proofs.ToksComb',
                                     'PP.Proofs.ToksVal', 'PP.Proofs.ReaderRT', 'PP.Props.C03', 'PP.Props.C01b', 'PP.Proofs.Shown',
                                     'PP.Proofs.ShownC01', 'PP.Props.C01c'],
         'sections': [{'name': 'builtin-values', 'run': values_sec('builtin_values_section')},
-                     {'name': 'tokens', 'run': values_sec('tokens_section')}],
+                     {'name': 'tokens', 'run': values_sec('tokens_section')},
+                     {'name': 'reader', 'run': values_sec('reader_section', mode='c01')}],
         'trusted': VALUE_TRUSTED,
         'rule': 'pformat of built-in value trees vs the model (SDoc stream + text), eval oracle with exact types',
     },
@@ -220,10 +222,13 @@ REGISTRY = {
     'C08': {
         'theorems': ['PP.C04.sound_pformat', 'PP.C08.wrapper_shape', 'PP.C08.wrapper_seq', 'PP.C08.wrapper_int',
                      'PP.C08.seq_wrapper_tokens', 'PP.C08.dict_wrapper_tokens', 'PP.C08.int_wrapper_tokens', 'PP.C08.str_wrapper_tokens',
-                     'PP.C03.output_tokens'],
+                     'PP.C03.output_tokens', 'PP.C08.output_reads_back', 'PP.Tok.canon_reads', 'PP.C08.seq_denotes', 'PP.C08.seq_empty_denotes',
+                     'PP.C08.dict_denotes', 'PP.C08.dict_empty_denotes', 'PP.C08.frozenset_denotes', 'PP.C08.int_denotes', 'PP.C08.str_denotes',
+                     'PP.C08.float_denotes', 'PP.C08.float_special_denotes'],
         'modules': VALUE_MODULES + ['PP.Props.Values', 'PP.Spec.Tokens', 'PP.Proofs.Toks', 'PP.Proofs.ToksStr', 'PP.Proofs.ToksComb',
-                                    'PP.Proofs.ToksVal', 'PP.Props.C03', 'PP.Props.TokensMore'],
-        'sections': [{'name': 'subclasses', 'run': values_sec('subclasses_section')}],
+                                    'PP.Proofs.ToksVal', 'PP.Props.C03', 'PP.Props.TokensMore', 'PP.Spec.Reader', 'PP.Proofs.ReaderRT', 'PP.Props.C01b', 'PP.Props.C08b'],
+        'sections': [{'name': 'subclasses', 'run': values_sec('subclasses_section')},
+                     {'name': 'reader', 'run': values_sec('reader_section', mode='c08')}],
         'trusted': VALUE_TRUSTED,
         'rule': 'instances of generated subclasses of the nine built-in bases, nested, all layouts; eval reconstructs class and value',
     },
@@ -259,10 +264,12 @@ REGISTRY = {
     'C17': {
         'theorems': ['PP.C04.sound_pformat', 'PP.C17.empty_call', 'PP.C17.hug_only_exact', 'PP.C17.call_tokens', 'PP.C17.kw_tokens',
                      'PP.C03.output_tokens', 'PP.C17.fields_shown_iff', 'PP.C17.fields_in_declaration_order', 'PP.C17.fields_rebuild',
-                     'PP.C17.hidden_field_rebuilt_from_default', 'PP.C17.instance_tokens'],
+                     'PP.C17.hidden_field_rebuilt_from_default', 'PP.C17.instance_tokens', 'PP.C17.output_reads_back', 'PP.C17.call_denotes',
+                     'PP.C17.kwargs_denote', 'PP.Tok.canon_reads'],
         'modules': VALUE_MODULES + ['PP.Props.Values', 'PP.Spec.Tokens', 'PP.Proofs.Toks', 'PP.Proofs.ToksStr', 'PP.Proofs.ToksComb',
-                                    'PP.Proofs.ToksVal', 'PP.Props.C03', 'PP.Props.TokensMore', 'PP.Model.Fields', 'PP.Props.C17b'],
+                                    'PP.Proofs.ToksVal', 'PP.Props.C03', 'PP.Props.TokensMore', 'PP.Model.Fields', 'PP.Props.C17b', 'PP.Spec.Reader', 'PP.Proofs.ReaderRT', 'PP.Props.C01b', 'PP.Props.C08b'],
         'sections': [{'name': 'calls', 'run': values_sec('calls_section')},
+                     {'name': 'reader', 'run': values_sec('reader_section', mode='c17')},
                      {'name': 'dataclasses-attrs', 'run': simple_sec('sec_extras', 'extras_section')}],
         'trusted': VALUE_TRUSTED,
         'rule': 'objects printed through pretty_call_alt: args/kwargs order, nesting, comments; dataclasses/attrs field selection',
